@@ -38,6 +38,35 @@ theorem lastOr_cons (p : Option Char) (c : Char) (l : List Char) :
     | none => simp at h
     | some y => rfl
 
+/-! ### the look-ahead on texts without a backslash: parity of the quotes -/
+
+theorem closedAfter_cons (inLit : Bool) (c : Char) (r : List Char) (hc : c ≠ '\\') :
+    closedAfter inLit (c :: r) = if (c == '"') = true then closedAfter (!inLit) r else closedAfter inLit r :=
+  closedAfter.eq_4 inLit c r (fun _ _ h _ => hc h) (fun h _ => hc h)
+
+theorem closedAfter_noBackslash : ∀ (s : List Char) (inLit : Bool), '\\' ∉ s →
+    closedAfter inLit s = (quoteCount s % 2 == (if inLit then 1 else 0)) := by
+  intro s
+  induction s with
+  | nil => intro inLit _; cases inLit <;> simp [closedAfter, quoteCount]
+  | cons c r ih =>
+    intro inLit hb
+    have hc : c ≠ '\\' := fun h => hb (by simp [h])
+    have hr : '\\' ∉ r := fun h => hb (by simp [h])
+    rw [closedAfter_cons inLit c r hc, quoteCount_cons]
+    by_cases hq : (c == '"') = true
+    · simp only [hq, if_true]
+      rw [ih (!inLit) hr]
+      have h2 : quoteCount r % 2 = 0 ∨ quoteCount r % 2 = 1 := by omega
+      cases inLit <;> rcases h2 with h2 | h2 <;> simp [h2] <;> omega
+    · have hq' : (c == '"') = false := by simpa using hq
+      simp only [hq', Bool.false_eq_true, if_false]
+      rw [ih inLit hr]
+      simp
+
+theorem closedAfter_even (s : List Char) (hb : '\\' ∉ s) : closedAfter false s = evenQuotes s := by
+  rw [closedAfter_noBackslash s false hb]; simp [evenQuotes]
+
 /-! ### one pass of the model, run by run -/
 
 /-- the skipped characters of a matched name produce nothing -/
@@ -134,9 +163,10 @@ theorem aux_word (name exp : List Char) (hn : name.all isWord = true) (hne : nam
     (hprev : ∀ p, prev = some p → isWordDot p = false)
     (hw : w.all isWordDot = true) (hwne : w ≠ [])
     (hr : ∀ x, r.head? = some x → isWordDot x = false)
-    (heven : evenQuotes r = true) :
+    (heven : evenQuotes r = true) (hbr : '\\' ∉ r) :
     expandOneAux name exp prev 0 (w ++ r)
       = (if name = w then exp else w) ++ expandOneAux name exp (lastOr prev w) 0 r := by
+  have hcl : closedAfter false r = true := by rw [closedAfter_even r hbr]; exact heven
   cases w with
   | nil => exact absurd rfl hwne
   | cons c cs =>
@@ -146,7 +176,7 @@ theorem aux_word (name exp : List Char) (hn : name.all isWord = true) (hne : nam
         subst heq
         have h1 : isPrefixOf (c :: cs) (c :: cs ++ r) = true := by simp [isPrefixOf]
         have h2 : ((c :: cs ++ r).drop (c :: cs).length) = r := by simp
-        simp only [matchesAt, h1, h2, heven, Bool.true_and, Bool.and_true, Bool.and_eq_true]
+        simp only [matchesAt, h1, h2, hcl, Bool.true_and, Bool.and_true, Bool.and_eq_true]
         constructor
         · cases prev with
           | none => rfl
@@ -179,13 +209,13 @@ theorem aux_word (name exp : List Char) (hn : name.all isWord = true) (hne : nam
 /-- inside a string literal (an odd number of quotes ahead) nothing matches -/
 theorem aux_in_literal (name exp : List Char) (hn : quoteCount name = 0) :
     ∀ (body : List Char) (prev : Option Char) (tail : List Char),
-      quoteCount body = 0 → quoteCount tail % 2 = 1 →
+      quoteCount body = 0 → quoteCount tail % 2 = 1 → '\\' ∉ body ++ tail →
       expandOneAux name exp prev 0 (body ++ tail) = body ++ expandOneAux name exp (lastOr prev body) 0 tail := by
   intro body
   induction body with
-  | nil => intro prev tail _ _; simp
+  | nil => intro prev tail _ _ _; simp
   | cons c cs ih =>
-    intro prev tail hb ht
+    intro prev tail hb ht hbs
     have hc : (if c == '"' then 1 else 0) = 0 ∧ quoteCount cs = 0 := by
       rw [quoteCount_cons] at hb; omega
     have hm : matchesAt name prev (c :: cs ++ tail) = false := by
@@ -195,18 +225,21 @@ theorem aux_in_literal (name exp : List Char) (hn : quoteCount name = 0) :
         exfalso
         simp only [matchesAt, Bool.and_eq_true] at hmm
         obtain ⟨⟨⟨hp, _⟩, _⟩, hev⟩ := hmm
+        rw [closedAfter_even _ (fun h => hbs (List.mem_of_mem_drop h))] at hev
         have := quoteCount_take_prefix name (c :: cs ++ tail) hn hp
         have h1 : quoteCount (c :: cs ++ tail) = quoteCount tail := by
           rw [List.cons_append, quoteCount_cons, quoteCount_append, hc.1, hc.2]; simp
         rw [h1] at this
         simp only [evenQuotes, beq_iff_eq] at hev
         omega
-    rw [List.cons_append, aux_copy _ _ _ _ _ (by simpa using hm), ih (some c) tail hc.2 ht, lastOr_cons]
+    rw [List.cons_append, aux_copy _ _ _ _ _ (by simpa using hm),
+      ih (some c) tail hc.2 ht (fun h => hbs (by simp only [List.cons_append, List.mem_cons]; exact Or.inr h)), lastOr_cons]
     rfl
 
 /-- **A string literal** is copied byte for byte. -/
 theorem aux_literal (name exp : List Char) (hn : name.all isWord = true) (hne : name ≠ [])
-    (prev : Option Char) (body r : List Char) (hb : quoteCount body = 0) (heven : evenQuotes r = true) :
+    (prev : Option Char) (body r : List Char) (hb : quoteCount body = 0) (heven : evenQuotes r = true)
+    (hbb : '\\' ∉ body) (hbr : '\\' ∉ r) :
     expandOneAux name exp prev 0 ('"' :: (body ++ '"' :: r))
       = '"' :: (body ++ '"' :: expandOneAux name exp (some '"') 0 r) := by
   have hq : quoteCount name = 0 := by
@@ -228,7 +261,8 @@ theorem aux_literal (name exp : List Char) (hn : name.all isWord = true) (hne : 
       simp [quote_not_wordDot] at this
     simp only [evenQuotes, beq_iff_eq] at heven
     rw [aux_copy _ _ _ _ _ (no_match_head n ns prev '"' _ hnq),
-      aux_in_literal (n :: ns) exp hq body (some '"') ('"' :: r) hb (by rw [quoteCount_cons]; simp; omega),
+      aux_in_literal (n :: ns) exp hq body (some '"') ('"' :: r) hb (by rw [quoteCount_cons]; simp; omega)
+        (by simp only [List.mem_append, List.mem_cons, not_or]; exact ⟨hbb, by decide, hbr⟩),
       aux_copy _ _ _ _ _ (no_match_head n ns _ '"' _ hnq)]
 
 /-- any other character is copied -/
@@ -395,7 +429,7 @@ theorem pass_eq_spec_aux (nameS body : String) (hn : nameS.toList.all isWord = t
             | none => trivial
             | some x => exact Or.inr (hrh x h2)
         have e1 : c :: rest = (c :: w') ++ r := by rw [hs]; rfl
-        rw [e1, aux_word nameS.toList (wrap body) hn hne prev (c :: w') r hpv hall (by simp) hrh hqr,
+        rw [e1, aux_word nameS.toList (wrap body) hn hne prev (c :: w') r hpv hall (by simp) hrh hqr hbr,
           ih r hrl _ hbo hqr hbr]
         have e2 : tokenizeAux ((c :: w') ++ r) none = .word (c :: w') :: tokenizeAux r none := by
           simp only [List.cons_append, tokenizeAux, hcne, hw]
@@ -446,7 +480,7 @@ theorem pass_eq_spec_aux (nameS body : String) (hn : nameS.toList.all isWord = t
               cases r.head? with
               | none => trivial
               | some y => exact Or.inl quote_not_wordDot
-            rw [hs, aux_literal nameS.toList (wrap body) hn hne prev b r hbq hqr, ih r hrl _ hbo hqr hbr]
+            rw [hs, aux_literal nameS.toList (wrap body) hn hne prev b r hbq hqr hbb hbr, ih r hrl _ hbo hqr hbr]
             have e2 : tokenizeAux ('"' :: (b ++ '"' :: r)) none = .lit ('"' :: (b ++ ['"'])) :: tokenizeAux r none := by
               simp only [tokenizeAux]
               have := tok_lit b ['"'] r hbq hbb
